@@ -358,6 +358,17 @@ def intercept(h0: int, h1: int, so: int, co: int, cache: int, di: int, d0: int) 
     if not isinstance(h.plugin.upstream.connection, FakeSSLSocket):
         return fail('upstream connection not switched to the TLS session')
     # decrypted follow-up request is parsed and forwarded over the verified session
+    if CFG.get('want_read'):
+        # the TLS layer has only part of a record: recv() raises SSLWantReadError on either side; that means "try again later", the
+        # session goes on
+        cs.inq.append(ssl.SSLWantReadError(2, 'The operation did not complete (read)'))
+        us.inq.append(ssl.SSLWantReadError(2, 'The operation did not complete (read)'))
+        try:
+            td = run(h.handle_events([cs.fd, us.fd], []))
+        except Exception as e:
+            return fail('SSLWantReadError left handle_events', exc=repr(e))
+        if td:
+            return fail('intercepted session torn down on SSLWantReadError (an incomplete TLS record)')
     req = b'GET /s' + B(d0 % 26 + 97) + b' HTTP/1.1\r\nHost: ' + host + b'\r\n\r\n'
     cs.inq.append(req)
     try:
@@ -393,6 +404,9 @@ def obligations(tier):
             for so in (0, 1):
                 obs.append({'name': 'intercept.%s.%s.server_%s' % (hkind, 'insecure' if insecure else 'verify', S_OUT[so]), 'fn': 'intercept',
                             'cfg': {'insecure': insecure, 'so': so, 'co': 0, 'di': 1, 'hostkind': hkind}, 'timeout': 400})
+    for insecure in (False, True):
+        obs.append({'name': 'intercept.%s.want_read' % ('insecure' if insecure else 'verify'), 'fn': 'intercept',
+                    'cfg': {'insecure': insecure, 'so': 0, 'co': 0, 'di': 1, 'want_read': True}, 'timeout': 400})
     for step in ('gen_public_key', 'gen_csr', 'sign_csr'):
         obs.append({'name': 'intercept.pki_fail.%s' % step, 'fn': 'intercept',
                     'cfg': {'insecure': False, 'so': 0, 'co': 0, 'di': 1, 'pki_fail': step}, 'timeout': 400})
@@ -404,7 +418,7 @@ META = {
         'quick': 'CONNECT host: name with 2 symbolic letters, IPv4 and bracketed IPv6 literals with a symbolic digit; a failing openssl helper at each of the 3 generation steps (lock must be released); upstream handshake outcome {ok, certificate verification error, other SSL error}; '
                  'client-side handshake outcome {ok, verification error, SSL error, EOF, broken pipe}; --insecure-tls-interception on/off; a '
                  'plugin\'s do_intercept on/off; certificate cache state symbolic (8 combinations of leaf/public key/CSR present); one symbolic '
-                 'payload byte',
+                 'payload byte; SSLWantReadError (incomplete record) on both sides of an established intercepted session',
         'thorough': 'same',
     },
     'outside': 'NOT ENCODABLE, outside the claim: that OpenSSL actually verifies the upstream chain/name, that the generated leaf really chains '
